@@ -42,16 +42,22 @@ META = {
 
 
 def run_tape(tape):
+    import contextlib
     with seams.deterministic(tape) as clock:
-        return _run(tape, clock)
+        with contextlib.ExitStack() as stack:
+            return _run(tape, clock, stack)
 
 
-def _run(tape, clock):
+def _run(tape, clock, stack):
     run = Run(PROP)
     flavour = V.set_flavour(tape)
     threaded = tape.draw(4) == 3
     preempt = tape.choice([0.0, 0.02, 0.1, 0.4])
     big = tape.draw(4) == 3
+    if tape.draw(5) == 4:
+        # the service runs with the library's DEBUG logging on (recording and replay): logging is not behaviour
+        stack.enter_context(seams.debug_logging())
+        run.probe('library_logging_at_debug_level')
     spec = R.gen_service(tape, run, max_steps=30 if big else 10, max_inputs=4, max_outputs=3, threads=threaded,
                          value_depth=3 if tape.draw(3) == 2 else 2, arg_mutating_inputs=True)
     R.fill_outcomes(tape, run, spec)
